@@ -18,6 +18,8 @@
 
 #include "timer.h"
 
+#include "verifev.h"
+
 #include <algorithm>
 #include <iostream>
 #include <numeric>
@@ -38,6 +40,8 @@ void TimerResults::showResults(size_t max_results, bool metrics) const
     std::vector<dataElementType> data;
     {
         std::lock_guard<std::mutex> l(mResultsSync);
+        VERIF_EV_LOCKED("mResultsSync", l);
+        VERIF_EV("rd", "mResults");
 
         data.reserve(mResults.size());
         data.insert(data.begin(), mResults.cbegin(), mResults.cend());
@@ -80,6 +84,8 @@ void TimerResults::showResults(size_t max_results, bool metrics) const
 void TimerResults::addResults(const std::string& name, std::chrono::milliseconds duration)
 {
     std::lock_guard<std::mutex> l(mResultsSync);
+    VERIF_EV_LOCKED("mResultsSync", l);
+    VERIF_EV("wr", "mResults");
 
     mResults[name].push_back(duration);
 }
@@ -87,6 +93,8 @@ void TimerResults::addResults(const std::string& name, std::chrono::milliseconds
 void TimerResults::reset()
 {
     std::lock_guard<std::mutex> l(mResultsSync);
+    VERIF_EV_LOCKED("mResultsSync", l);
+    VERIF_EV("wr", "mResults");
     mResults.clear();
 }
 
